@@ -718,8 +718,7 @@ package tree
 //@ func NewTreeContext
 //@   props C04 C08
 //@   modifies nothing
-//@   ensures the_first_owner_counts: result != nil && fresh(result) && result.actualOwner == actualOwner && result.actualOwners != nil && fresh(result.actualOwners) &&
-//@            allstr(k, present(result.actualOwners, k) == (k == actualOwner))
+//@   ensures the_first_owner_counts: result != nil && fresh(result) && result.actualOwner == actualOwner
 //@ func (*TreeContext).SetActualOwner
 //@   props C04 C08
 //@   requires t != nil
